@@ -206,8 +206,9 @@ impl LruOutboundAliasResolver {
             };
         }
 
-        let mut alias_value : u16 = (self.cache.len() + 1) as u16;
-        if alias_value > self.current_maximum_alias_value {
+        let next_alias_value : usize = self.cache.len() + 1;
+        let mut alias_value : u16 = next_alias_value as u16;
+        if next_alias_value > self.current_maximum_alias_value as usize {
             if let Some((_, recycled_alias)) = self.cache.peek_lru() {
                 alias_value = *recycled_alias;
             } else {
